@@ -315,7 +315,7 @@ impl Allocator for Arena {
     let allocated = self
       .alloc_in::<T>()?
       .expect("allocated size is not zero, but get None");
-    let ptr = unsafe { self.get_aligned_pointer_mut::<T>(allocated.memory_offset as usize) };
+    let ptr = unsafe { self.get_aligned_pointer_mut::<T>(allocated.ptr_offset as usize) };
     if mem::needs_drop::<T>() {
       unsafe {
         let ptr: *mut MaybeUninit<T> = ptr.as_ptr().cast();
